@@ -403,7 +403,9 @@ def c09(run):
                     healthy = dict(call, beh={n: rng.choice(["ok", "ret"]) for n in beh})
                     sid += 1
                     sessions.append({"id": sid, "target": tgt, "gated": r["method"] not in X.SEQ_ONLY and rng.random() < 0.7,
-                                     "burst": rng.random() < 0.3, "rules": decl, "calls": [call, healthy, dict(call)], "fault": code})
+                                     "burst": rng.random() < 0.3, "rules": decl, "calls": [call, healthy, dict(call)], "fault": code,
+                                     # injected data itself may be odd: a nil value, an empty key
+                                     "baddata": tgt == "pool" and rng.random() < 0.15})
     if quick and len(sessions) > 3000:
         sessions = rng.sample(sessions, 3000)
     # "never hang" also for rules that do nothing wrong: legal loops whose body lengthens the collection they range over,
